@@ -209,7 +209,8 @@ def check(P, R):
     gw, rw = w.cfg, w.rd
     mods = [x for x in walk_shallow(w.node) if isinstance(x, ast.BinOp) and isinstance(x.op, ast.Mod)]
     for x in mods:
-        ok = isinstance(x.left, ast.Constant) and isinstance(x.left.value, str)
+        left_ = T.module_value(w, x.left)
+        ok = isinstance(left_, ast.Constant) and isinstance(left_.value, str)
         R.ob('C20.d', w, x, ok, text=f'{short(x.left, 40)} % (...)', detail='' if ok else 'the left operand of % is not a constant format string')
 
     # ---- e: last-resort page
@@ -229,27 +230,56 @@ def check(P, R):
              why='the last-resort page must not reflect the path unescaped')
     # what is written to the client is what was escaped (no second, raw copy)
     he_ = P.func('ombott.common_helpers:html_escape')
-    reps = [(const(c.args[0]), const(c.args[1])) for c in ast.walk(he_.node) if isinstance(c, ast.Call) and call_attr(c) == 'replace' and len(c.args) == 2]
-    chars = {a for a, b in reps}
-    ok = {'&', '<', '>', '"', "'"} <= chars
-    R.ob('C20.e', he_, he_.node, ok, text=f'html_escape covers {sorted(chars)}', detail='' if ok else f'html_escape misses {sorted({"&", "<", ">", chr(34), chr(39)} - chars)}')
-    # & replaced first: the innermost replace call
+    rep_calls = [c for c in ast.walk(he_.node) if isinstance(c, ast.Call) and call_attr(c) == 'replace' and len(c.args) == 2]
+    order = None       # characters in the order they are replaced
     inner = None
-    for c in ast.walk(he_.node):
-        if isinstance(c, ast.Call) and call_attr(c) == 'replace' and isinstance(c.func.value, ast.Name):
-            inner = c
-    ok = inner is not None and const(inner.args[0]) == '&'
-    R.ob('C20.e', he_, inner or he_.node, ok, text='& is replaced first', detail='' if ok else 'replacing & after the others double-escapes / un-escapes entities')
+    if rep_calls and all(isinstance(const(c.args[0]), str) for c in rep_calls):
+        # chained form: the innermost call runs first
+        depth_ = {}
+        for c in rep_calls:
+            d_, x_ = 0, c.func.value
+            while isinstance(x_, ast.Call) and call_attr(x_) == 'replace':
+                d_, x_ = d_ + 1, x_.func.value
+            depth_[id(c)] = d_
+        chain = sorted(rep_calls, key=lambda c: depth_[id(c)])
+        if [depth_[id(c)] for c in chain] == list(range(len(chain))):
+            order = [const(c.args[0]) for c in chain]
+            inner = chain[0]
+    elif len(rep_calls) == 1:
+        # table form: for a, b in <constant pairs>: s = s.replace(a, b)
+        c = rep_calls[0]
+        lp_ = T.loops_of(c)
+        if lp_ and isinstance(lp_[0], ast.For) and isinstance(lp_[0].target, ast.Tuple) and len(lp_[0].target.elts) == 2 \
+                and [src(a) for a in c.args] == [src(e) for e in lp_[0].target.elts]:
+            st_ = stmt_of(c)
+            threads = isinstance(st_, ast.Assign) and isinstance(st_.targets[0], ast.Name) and src(c.func.value) == st_.targets[0].id
+            try:
+                tbl = T.ceval(he_, lp_[0].iter)
+            except T.CannotEval:
+                tbl = None
+            if threads and isinstance(tbl, (tuple, list)) and all(isinstance(p_, (tuple, list)) and len(p_) == 2 for p_ in tbl):
+                order = [p_[0] for p_ in tbl]
+                inner = c
+    if order is None:
+        R.undecided('C20.e', he_, he_.node, 'html_escape', 'neither a chain of replace() calls with constant arguments nor a loop over a constant table')
+    else:
+        chars = set(order)
+        ok = {'&', '<', '>', '"', "'"} <= chars
+        R.ob('C20.e', he_, he_.node, ok, text=f'html_escape covers {sorted(chars)}', detail='' if ok else f'html_escape misses {sorted({"&", "<", ">", chr(34), chr(39)} - chars)}')
+        ok = bool(order) and order[0] == '&'
+        R.ob('C20.e', he_, inner or he_.node, ok, text='& is replaced first', detail='' if ok else 'replacing & after the others double-escapes / un-escapes entities')
     # JSON branch
     de = P.func(f'{OM}:Ombott.default_error_handler')
     gd = de.cfg
     jt = [n for n in gd.nodes if n.kind == 'test' and 'is_json_requested' in src(n.ast)]
     R.require(jt, 'default_error_handler: JSON test missing')
     dumps = [c for c in walk_shallow(de.node) if isinstance(c, ast.Call) and dotted(c.func) == 'json.dumps']
-    ok = bool(dumps) and gd.edge_dominates(jt[0], 'true', gd.node_of_stmt(dumps[0])[0]) and isinstance(dumps[0].args[0], (ast.Call, ast.Dict))
+    jlab = 'false' if strip_not(jt[0].ast)[1] else 'true'      # the edge taken when JSON is requested
+    ok = bool(dumps) and gd.edge_dominates(jt[0], jlab, gd.node_of_stmt(dumps[0])[0]) and \
+        isinstance(T.expand(de, dumps[0].args[0], gd.node_of_stmt(dumps[0])[0]), (ast.Call, ast.Dict))
     R.ob('C20.e', de, dumps[0] if dumps else de.node, ok, text='JSON requested -> json.dumps(dict(...))', detail='' if ok else 'the JSON error body is not produced by json.dumps of a dict')
     cts = [st for st in walk_shallow(de.node) if isinstance(st, ast.Assign) and 'Content-Type' in src(st.targets[0]) and is_const(st.value, 'application/json')]
-    ok = bool(cts) and gd.edge_dominates(jt[0], 'true', gd.node_of_stmt(cts[0])[0])
+    ok = bool(cts) and gd.edge_dominates(jt[0], jlab, gd.node_of_stmt(cts[0])[0])
     R.ob('C20.e', de, cts[0] if cts else de.node, ok, text='Content-Type: application/json on the same branch', detail='' if ok else 'the JSON body is not labelled application/json')
     ij = P.func('ombott.request_pkg.props_mixin:PropsMixin.is_json_requested')
     rets_ = [n for n in walk_shallow(ij.node) if isinstance(n, ast.Return) and n.value is not None]
@@ -272,8 +302,7 @@ def check(P, R):
     ok = False
     if rc and len(rc[0].args) == 3:
         at_ = de.cfg.node_of_stmt(rc[0])[0]
-        ok = any(isinstance(x, ast.Attribute) and dotted(x) == 'self.request.url' for x in de.rd.closure_nodes(rc[0].args[1], at_)) and \
-            any(isinstance(x, ast.Attribute) and dotted(x) == 'self.config.debug' for x in de.rd.closure_nodes(rc[0].args[2], at_))
+        ok = T.xsrc(de, rc[0].args[1], at_) == 'self.request.url' and T.xsrc(de, rc[0].args[2], at_) == 'self.config.debug'
     R.ob('C20.e', de, rc[0] if rc else de.node, ok, text='render(res, self.request.url, self.config.debug)', detail='' if ok else 'the HTML page is not rendered from (error, url, debug)')
 
 
